@@ -1,6 +1,7 @@
 package sym
 
 import (
+	"unicode/utf8"
 	"fmt"
 	"go/types"
 	"math"
@@ -254,6 +255,7 @@ func init() {
 			}
 			return nil
 		},
+		"UFLookup": func(fr *frame, args []value) value { return (*ssa.Function)(nil) },
 		"RaceBegin": func(fr *frame, args []value) value {
 			if fr.i.sched == nil {
 				panic(fr.i.unsupported("rt.RaceBegin needs the scheduler (\"sched\": true)"))
@@ -406,6 +408,9 @@ func (i *interpreter) reachInside(p *value, tag string, seen map[*value]bool, ou
 var stdIntrinsics map[string]intrinsic
 
 func nop(fr *frame, args []value) value { return nil }
+
+func utf8ValidString(s string) bool { return utf8.ValidString(s) }
+
 
 func atomicLoad(fr *frame, args []value) value {
 	p := args[0].(*value)
@@ -635,6 +640,46 @@ func init() {
 		"internal/bytealg.Index":       func(fr *frame, args []value) value { return genericIndex(fr, args) },
 		"internal/bytealg.IndexString": func(fr *frame, args []value) value { return genericIndex(fr, args) },
 		"internal/stringslite.Index":   func(fr *frame, args []value) value { return genericIndex(fr, args) },
+		// UTF-8 decoding of (partly) symbolic bytes: the real functions index a 256-entry table with the first byte
+		"unicode/utf8.DecodeRuneInString": func(fr *frame, args []value) value {
+			switch s := args[0].(type) {
+			case string:
+				r, w := decodeRune(s)
+				return tuple{int32(r), w}
+			case *symStr:
+				if len(s.b) == 0 {
+					return tuple{int32(0xFFFD), 0}
+				}
+				r, w := fr.i.decodeRuneSym(s.b)
+				return tuple{r, w}
+			}
+			panic(fr.i.unsupported("utf8.DecodeRuneInString: unexpected argument"))
+		},
+		"unicode/utf8.DecodeRune": func(fr *frame, args []value) value {
+			b, _ := args[0].([]value)
+			if len(b) == 0 {
+				return tuple{int32(0xFFFD), 0}
+			}
+			r, w := fr.i.decodeRuneSym(b)
+			return tuple{r, w}
+		},
+		"unicode/utf8.ValidString": func(fr *frame, args []value) value {
+			var b []value
+			switch s := args[0].(type) {
+			case string:
+				return utf8ValidString(s)
+			case *symStr:
+				b = s.b
+			}
+			for len(b) > 0 {
+				r, w := fr.i.decodeRuneSym(b)
+				if rr, ok := r.(int32); ok && rr == 0xFFFD && w == 1 {
+					return false
+				}
+				b = b[w:]
+			}
+			return true
+		},
 		"strings.Index":                func(fr *frame, args []value) value { return genericIndex(fr, args) },
 		"bytes.Index":                  func(fr *frame, args []value) value { return genericIndex(fr, args) },
 
